@@ -448,10 +448,11 @@ def worker(ctx):
     c = T.corpus()
     ids = list(range(len(c)))
     _random.Random(ctx.seed).shuffle(ids)
-    src = [('corpus', c[i]) for k, i in enumerate(ids[:cfg['n_corpus']]) if ctx.mine(k)]
-    src += [('curated', s) for k, s in enumerate(HETEROCYCLES) if ctx.mine(k)]
+    # the small hand-made sets first: a time budget reached on a loaded machine then costs corpus molecules, not ring-system classes
+    src = [('curated', s) for k, s in enumerate(HETEROCYCLES) if ctx.mine(k)]
     src += [('test-literal', s) for k, s in enumerate(test_literals()) if ctx.mine(k)]
     src += [('special', s) for k, (s, _) in enumerate(G.special()) if ctx.mine(k)]
+    src += [('corpus', c[i]) for k, i in enumerate(ids[:cfg['n_corpus']]) if ctx.mine(k)]
     for tag, s in src:
         if ctx.out_of_time():
             ctx.note('time budget reached')
